@@ -110,6 +110,16 @@ def suite_codebooks(tier):
                     if not mine():
                         continue
                     yield ('book', lens, flag, lookup, dim, vb, sq), (lambda a=(lens, flag, lookup, dim, vb, sq, mn, dl): build_book(*a))
+    # books WITH a value table used in scalar context (residue classification book, floor-1 master and Y books): the entry NUMBER is the result,
+    # whatever the order of the codeword lengths (the decoder's sorted-codeword tables must map back to entry numbers)
+    for lens in codes:
+        if len(lens) < 2:
+            continue
+        for lookup in (1, 2):
+            for where in ('class', 'f1y') + (('f1master',) if len(lens) == 4 else ()):
+                if not mine():
+                    continue
+                yield ('scalar', where, lens, lookup), (lambda a=(lens, lookup, where): build_scalar(*a))
     # long codewords: a 32-bit deep tree, a 300-entry book (first-table + search path of the library's decoder), a 2-entry 1-bit book
     for name, lens in (('deep32', list(range(1, 32)) + [32, 32]), ('n300', vsynth.complete_lengths(300)), ('n1000', vsynth.complete_lengths(1000))):
         if mine():
@@ -126,6 +136,37 @@ def build_book(lens, flag, lookup, dim, vb, sq, mn, dl):
     s.books[2] = bk
     f = vsynth.Filler(fixed=fill_used(**{'res.class': 1}))
     return vsynth.Stream(s, pk_seq(s, [0, 1, 0], f))
+
+
+def build_scalar(lens, lookup, where):
+    entries = len(lens)
+    nm = vspec.lookup1_values(entries, 1) if lookup == 1 else entries
+    tb = vspec.Codebook(1, list(lens), lookup, minv=vsynth.fpack(-3.0), delta=vsynth.fpack(0.5), value_bits=4, sequence_p=0, mults=[(k * 5 + 1) % 16 for k in range(nm)])
+    s = vsynth.base_setup(channels=1, bs0=64, bs1=128, restype=1, psize=4, vqdim=2)
+    cnt = itertools.count()
+    walk = lambda c, d: [e for e, l in enumerate(d.lengths) if l > 0][next(cnt) % sum(1 for l in d.lengths if l > 0)]
+    if where == 'class':
+        # one class per entry, each class with its own value book so that a permuted class number changes the output
+        s.books[0] = tb
+        first = len(s.books)
+        for k in range(entries):
+            s.books.append(vsynth.lattice_book(2, 3, minv=-(k + 1), delta=(k + 1)))
+        r = s.residues[0]
+        s.residues[0] = vspec.Residue(1, 0, r.end, 4, entries, 0, [1] * entries, [[first + k] + [-1] * 7 for k in range(entries)])
+        f = vsynth.Filler(fixed=fill_used(**{'res.class': walk}))
+    else:
+        fl = s.floors[0]
+        nb = len(s.books)
+        s.books.append(tb)
+        if where == 'f1y':
+            s.floors[0] = vspec.Floor1([0], [4], [0], [0], [[nb]], fl.mult, fl.rangebits, list(fl.xs)[:4])
+            f = vsynth.Filler(fixed=fill_used(**{'f1.yv': walk}))
+        else:
+            # master book with 4 entries selects between two Y books per dimension (1 subclass bit, 2 dimensions)
+            s.books.append(vsynth.flat_book(4, 1, 0))
+            s.floors[0] = vspec.Floor1([0, 0], [2], [1], [nb], [[1, nb + 1]], fl.mult, fl.rangebits, list(fl.xs)[:4])
+            f = vsynth.Filler(fixed=fill_used(**{'f1.master': walk}))
+    return vsynth.Stream(s, pk_seq(s, [0, 1, 0, 1], f))
 
 
 def build_bigbook(lens):
